@@ -307,6 +307,9 @@ class RecordLayer(object):
         self.fixedIVBlock = None
 
         self.handshake_finished = False
+        # in TLS 1.3 the peer may send unprotected alerts only until the
+        # handshake is finished
+        self.plaintext_alerts_ok = True
 
         self.padding_cb = None
 
@@ -927,6 +930,7 @@ class RecordLayer(object):
                 elif self._is_tls13_plus() and \
                         header.type == ContentType.alert and \
                         len(data) < 3 and \
+                        self.plaintext_alerts_ok and \
                         self._readState and \
                         self._readState.encContext and \
                         self._readState.seqnum == 0:
